@@ -236,9 +236,9 @@ func tenantOracle(prop string, res *RunResult) []Violation {
 					deletedOnce[fmt.Sprintf("%d/%s", op.Org, ix)] = true
 					delete(t.events[op.Org], ix)
 					delete(t.flushed[op.Org], ix)
-					for _, set := range t.alias[op.Org] {
-						delete(set, ix)
-					}
+					// aliases are not touched by an index deletion (virtualtable.DeleteVirtualTable removes the table
+					// name only): an alias keeps naming the index and resolves again once the name exists again.
+					// expand() lists an alias target only while the index exists.
 				}
 			case "query":
 				if e.Err != "" {
@@ -333,6 +333,16 @@ func tenantOracle(prop string, res *RunResult) []Violation {
 							suffix = ":after-another-tenant-deleted-the-same-index-name"
 						} else if deletedOnce[fmt.Sprintf("%d/%s", op.Org, ix)] && suffix == "" {
 							suffix = ":index-recreated-after-its-deletion"
+						}
+					}
+					if suffix == "" {
+						// the expression also names an index that was deleted, re-created by ingestion and deleted again:
+						// in that state (unknown to the table list, data still on disk) a multi-index expression loses
+						// the events of the other, healthy indexes it names - part of the recorded re-created-index finding
+						for _, part := range strings.Split(op.Index, ",") {
+							if redeleted[fmt.Sprintf("%d/%s", op.Org, strings.TrimSpace(part))] {
+								suffix = ":index-recreated-after-its-deletion"
+							}
 						}
 					}
 					vs = append(vs, Violation{Sig: prop + ":named-index-data-missing" + suffix, Msg: fmt.Sprintf("%s: %d of %d events missing (first %s); indexes %v", desc, miss, len(want), first, t.expand(op.Org, op.Index))})
